@@ -183,6 +183,15 @@ class Interp:
             for nm in _store_names(owner.target):  # type: ignore[union-attr]
                 self.kill(s_loop, nm)
             outs = [("loop", s_loop), ("done", dict(st)), ("x", st)]
+            # a loop over a non-empty constant display runs its body at least once before it is done
+            if isinstance(owner.iter, (ast.Tuple, ast.List)) and owner.iter.elts and not any(isinstance(e, ast.Starred) for e in owner.iter.elts):  # type: ignore[union-attr]
+                flag = f"lp:{node.id}"
+                if flag not in st:
+                    s_loop[flag] = "1"
+                    return [("loop", s_loop), ("x", st)]
+                done = dict(st)
+                done.pop(flag, None)
+                return [("loop", s_loop), ("done", done), ("x", st)]
             # a loop over a known-empty list is never entered
             if isinstance(owner.iter, ast.Name) and st.get(f"tr:{owner.iter.id}") == "F":  # type: ignore[union-attr]
                 outs = [("done", dict(st)), ("x", st)]
@@ -238,10 +247,49 @@ class Interp:
         if st.get("errvar") == var:
             st.pop("errvar")
 
+    def _loop_const_values(self, k: ast.AST) -> set[str] | None:
+        """k is the (element of the) target of an enclosing `for` over a display of string constants / of equal-length tuples of
+        string constants, and is not written otherwise: the strings it can be"""
+        if not isinstance(k, ast.Name):
+            return None
+        cur = getattr(k, "_parent", None)
+        while cur is not None and not isinstance(cur, (ast.FunctionDef, ast.AsyncFunctionDef, ast.Lambda)):
+            if isinstance(cur, (ast.For, ast.AsyncFor)):
+                tg = cur.target
+                pos = None
+                if isinstance(tg, ast.Name) and tg.id == k.id:
+                    pos = -1
+                elif isinstance(tg, (ast.Tuple, ast.List)):
+                    for i, e in enumerate(tg.elts):
+                        if isinstance(e, ast.Name) and e.id == k.id:
+                            pos = i
+                if pos is not None:
+                    if any(isinstance(x, ast.Name) and x.id == k.id and isinstance(x.ctx, ast.Store) and x is not tg and not any(x is y for y in ast.walk(tg)) for b in cur.body for x in ast.walk(b)):
+                        return None
+                    it = cur.iter
+                    if not isinstance(it, (ast.Tuple, ast.List)) or not it.elts:
+                        return None
+                    out: set[str] = set()
+                    for row in it.elts:
+                        c = row if pos == -1 else (row.elts[pos] if isinstance(row, (ast.Tuple, ast.List)) and pos < len(row.elts) else None)
+                        if not (isinstance(c, ast.Constant) and isinstance(c.value, str)):
+                            return None
+                        out.add(c.value)
+                    return out
+            cur = getattr(cur, "_parent", None)
+        return None
+
     # ----------------------------------------------------------- assignment
     def assign(self, target: ast.AST, value: ast.AST, st: dict, node: Node) -> None:
         if isinstance(target, ast.Subscript) and isinstance(target.value, ast.Name) and f"d:{target.value.id}" in st:
             key = target.slice.value if isinstance(target.slice, ast.Constant) else None
+            if key is None:
+                # `d[k] = ...` with k the variable of a loop over a constant table: a store under each of its values
+                ks = self._loop_const_values(target.slice)
+                if ks is not None:
+                    for k_ in sorted(ks & {STATUS_KEY, "valid", "validation_errors", "schema_name", "schema_version", "validation_error_count"}):
+                        self.dict_store(st, target.value.id, k_, value if k_ == "validation_error_count" else ast.Name(id="<unknown>", ctx=ast.Load()), node)
+                    return
             self.dict_store(st, target.value.id, key, value, node)
             return
         if isinstance(target, (ast.Tuple, ast.List)):
@@ -810,6 +858,16 @@ class Interp:
             return [e] if e is not None else None
         if isinstance(value, ast.Call):
             return self.helper_envelopes(value)
+        if isinstance(value, ast.BinOp) and isinstance(value.op, ast.BitOr):
+            # `A | B` on dicts: A's entries, then B's (B wins). Decided when B cannot hold an envelope key.
+            left = self.envelope_of_return(value.left, st)
+            if left is not None and isinstance(value.right, (ast.Name, ast.Dict)):
+                if isinstance(value.right, ast.Dict):
+                    keys: set[str] | None = {k.value for k in value.right.keys if isinstance(k, ast.Constant)} if all(isinstance(k, ast.Constant) for k in value.right.keys) else None
+                else:
+                    keys = self.spread_keys(value.right)
+                if keys is not None and not (keys & {STATUS_KEY, "valid", "validation_errors", "schema_name", "schema_version", "validation_error_count"}):
+                    return left
         return None
 
 
